@@ -705,7 +705,7 @@ class AP:
 
     def is_decl(self):
         j = 1 if self.peek() == "const" else 0
-        return self.peek(j) in ("T", "usize") and (self.peek(j + 1) == "*" or IDENT.match(self.peek(j + 1) or ""))
+        return self.peek(j) in ("T", "usize", "Item") and (self.peek(j + 1) in ("*", "&") or IDENT.match(self.peek(j + 1) or ""))
 
     def decl(self):
         if self.peek() == "const":
@@ -713,21 +713,24 @@ class AP:
         base = self.eat()
         ds = []
         while True:
-            ptr = False
+            ptr = ref = False
             if self.peek() == "*":
                 self.eat(); ptr = True
+            elif self.peek() == "&":
+                self.eat(); ref = True
             name = self.eat()
             if not IDENT.match(name):
                 raise Refuse(f"{self.fn}: declarator `{name}`")
-            if base == "T" and not ptr:
-                raise Refuse(f"{self.fn}: local `{name}` of type T (a value, not a pointer) is outside the translated subset")
-            if base == "usize" and ptr:
+            if base == "usize" and (ptr or ref):
                 raise Refuse(f"{self.fn}: `usize* {name}` is outside the translated subset")
+            if base == "Item" and not ptr:
+                raise Refuse(f"{self.fn}: `Item {name}` is outside the translated subset")
             init = None
             if self.peek() == "=":
                 self.eat()
                 init = self.assign()
-            ds.append(("ptr" if ptr else "nat", name, init))
+            ty = ("item" if ptr else "?") if base == "Item" else ("nat" if base == "usize" else ("ptr" if ptr else "ref" if ref else "val"))
+            ds.append((ty, name, init))
             if self.peek() == ",":
                 self.eat()
                 continue
@@ -777,7 +780,14 @@ class AP:
             e = self.unary()
             self.eat(";")
             return ("delete", e)
-        if tok in ("while", "do", "switch", "goto", "break", "continue", "try", "throw"):
+        if tok == "do":
+            self.eat("do")
+            body = self.stmt()
+            self.eat("while"); self.eat("(")
+            c = self.expr()
+            self.eat(")"); self.eat(";")
+            return ("dowhile", body, c)
+        if tok in ("while", "switch", "goto", "break", "continue", "try", "throw"):
             raise Refuse(f"{self.fn}: statement `{tok}` is outside the translated subset")
         if self.is_decl():
             d = self.decl()
@@ -919,12 +929,12 @@ class AP:
                 self.eat("~"); self.eat("T"); self.eat("("); self.eat(")")
                 a = ("destroy", a)
                 continue
-            if op != ".":
+            if op not in (".", "->"):
                 raise Refuse(f"{self.fn}: operator `{op}` is outside the translated subset")
             f = self.eat()
             if not IDENT.match(f) or self.peek() == "(":
                 raise Refuse(f"{self.fn}: member `{f}` / member call is outside the translated subset")
-            a = ("dot", a, f)
+            a = ("dot" if op == "." else "arrow", a, f)
         return a
 
 
@@ -1151,6 +1161,8 @@ class TrA:
                 if j == len(s[1]):
                     return cont(env2, i)
                 ty, name, init = s[1][j]
+                if ty not in ("ptr", "nat"):
+                    raise Refuse(f"{self.fn}: local `{name}` that is neither a `T*` nor a `usize` is outside the translated subset")
                 if name in env2 or name in ("M", "A", "fuel"):
                     raise Refuse(f"{self.fn}: `{name}` declared twice")
                 env3 = dict(env2)
@@ -1359,12 +1371,245 @@ def generate_array(repo, out_path):
     return ", ".join(summary)
 
 
+
+# ======================================================================================================================
+# Part 3: the quicksort of List::sort (struct QuickSort: swap, sort) -> lean/Nstd/Generated/SeqSort.lean
+#
+# Functions over the heap `PtrG.GHeap α` (value : address → α, next : address → Option address) of lean/Nstd/Seq/PtrSortG.lean,
+# generic in the element type, `operator<` = the parameter `lt`.  An `Item*` local / parameter is a non-null address (Nat):
+# assigning a null `x->next` to it is a fault (`none`); `const T& pivot = left->value` is a reference: every use re-reads
+# `left->value`; `T tmp = a->value` is a value.  The do-while loop and the recursion take a fuel argument.
+# lean/Nstd/Seq/PropsSortT.lean proves: translated swap = `PtrG.swapVal`, translated partition loop = `PtrG.ploopG`,
+# translated sort = `PtrG.qsortG` — for every heap, comparison function and element type.
+class TrS:
+    def __init__(self, fn, lean_name, recursive):
+        self.fn, self.lean_name, self.recursive = fn, lean_name, recursive
+        self.n = 0
+        self.nloop = 0
+        self.loops = []
+        self.in_loop = 0
+
+    def fresh(self):
+        self.n += 1
+        return f"t{self.n}"
+
+    def fuel_here(self):
+        return "fuel" if (self.in_loop or not self.recursive) else "(fuel + 1)"
+
+    # env: name -> ("item", assigned) | ("val",) | ("ref", address variable)
+    def pure(self, e, env):
+        """side-effect free, non-faulting term: (term, type)"""
+        if e[0] == "id" and e[1] in env:
+            k = env[e[1]]
+            if k[0] == "item":
+                if not k[1]:
+                    raise Refuse(f"{self.fn}: `{e[1]}` used before it is assigned")
+                return "v_" + e[1], "item"
+            if k[0] == "val":
+                return "v_" + e[1], "val"
+            return f"(p.val v_{k[1]})", "val"
+        if e[0] == "arrow" and e[2] == "value":
+            t, ty = self.pure(e[1], env)
+            if ty != "item":
+                raise Refuse(f"{self.fn}: `->value` on a {ty}")
+            return f"(p.val {t})", "val"
+        raise Refuse(f"{self.fn}: expression `{e[0]}` is outside the translated subset (or not free of faults here)")
+
+    def cond(self, e, env):
+        if e[0] == "bin" and e[1] in ("<", "!=", "=="):
+            (ta, tya), (tb, tyb) = self.pure(e[2], env), self.pure(e[3], env)
+            if e[1] == "<" and tya == tyb == "val":
+                return f"lt {ta} {tb}"
+            if e[1] in ("!=", "==") and tya == tyb == "item":
+                return f"{ta} {'≠' if e[1] == '!=' else '='} {tb}"
+        raise Refuse(f"{self.fn}: condition outside the translated subset (`<` on values, `!=`/`==` on item pointers)")
+
+    def ev(self, e, env, ind, k):
+        """k(term, type, env, ind)"""
+        if e[0] == "arrow" and e[2] == "next":
+            t, ty = self.pure(e[1], env)
+            if ty != "item":
+                raise Refuse(f"{self.fn}: `->next` on a {ty}")
+            x = self.fresh()
+            return [f"{ind}match p.next {t} with", f"{ind}| none => none", f"{ind}| some {x} =>"] + k(x, "item", env, ind + "  ")
+        if e[0] == "assign":
+            lhs, rhs = e[1], e[2]
+
+            def after(t, ty, env2, i):
+                if lhs[0] == "id" and lhs[1] in env2 and env2[lhs[1]][0] in ("item", "val"):
+                    kind = env2[lhs[1]][0]
+                    if kind != ty:
+                        raise Refuse(f"{self.fn}: a {ty} assigned to the {kind} `{lhs[1]}`")
+                    if any(v[0] == "ref" and v[1] == lhs[1] for v in env2.values()):
+                        raise Refuse(f"{self.fn}: `{lhs[1]}` is assigned while a reference is bound through it")
+                    env3 = dict(env2)
+                    if kind == "item":
+                        env3[lhs[1]] = ("item", True)
+                    return [f"{i}let v_{lhs[1]} := {t}"] + k(f"v_{lhs[1]}", ty, env3, i)
+                if lhs[0] == "arrow" and lhs[2] == "value":
+                    a, aty = self.pure(lhs[1], env2)
+                    if aty != "item" or ty != "val":
+                        raise Refuse(f"{self.fn}: assignment `{aty}->value = {ty}`")
+                    x = self.fresh()
+                    return [f"{i}let {x} := {t}", f"{i}let p := {{ p with val := Ptr.set p.val {a} {x} }}"] + k(x, "val", env2, i)
+                raise Refuse(f"{self.fn}: assignment to something that is not a local or `->value`")
+            return self.ev(rhs, env, ind, after)
+        if e[0] == "call":
+            name, args = e[1], e[2]
+            if name not in ("swap", "sort") or len(args) != 2:
+                raise Refuse(f"{self.fn}: call of `{name}` is outside the translated subset")
+            ts = []
+            for a in args:
+                t, ty = self.pure(a, env)
+                if ty != "item":
+                    raise Refuse(f"{self.fn}: argument of `{name}` is not an item pointer")
+                ts.append(t)
+            if name == "sort":
+                if not self.recursive or self.in_loop:
+                    raise Refuse(f"{self.fn}: recursive call in an unexpected place")
+                call = f"sort lt fuel p {ts[0]} {ts[1]}"
+            else:
+                call = f"swap p {ts[0]} {ts[1]}"
+            return [f"{ind}match {call} with", f"{ind}| none => none", f"{ind}| some p =>"] + k("()", "void", env, ind + "  ")
+        t, ty = self.pure(e, env)
+        return k(t, ty, env, ind)
+
+    @staticmethod
+    def restrict(env, outer):
+        return {n: (env[n] if n in env else outer[n]) for n in outer}
+
+    def run(self, stmts, env, ind, tail):
+        if not stmts:
+            return tail(env, ind)
+        s, rest = stmts[0], stmts[1:]
+        cont = lambda env2, ind2: self.run(rest, env2, ind2, tail)
+        k = s[0]
+        if k == "block":
+            return self.run(list(s[1]), dict(env), ind, lambda env2, ind2: cont(self.restrict(env2, env), ind2))
+        if k == "decl":
+            def go(j, env2, i):
+                if j == len(s[1]):
+                    return cont(env2, i)
+                ty, name, init = s[1][j]
+                if name in env2 or name in ("p", "fuel", "lt"):
+                    raise Refuse(f"{self.fn}: `{name}` declared twice")
+                env3 = dict(env2)
+                if ty == "item":
+                    if init is None:
+                        env3[name] = ("item", False)
+                        return go(j + 1, env3, i)
+
+                    def after(t, ety, env4, i2):
+                        if ety != "item":
+                            raise Refuse(f"{self.fn}: `Item* {name}` initialised with a {ety}")
+                        env5 = dict(env4)
+                        env5[name] = ("item", True)
+                        return [f"{i2}let v_{name} := {t}"] + go(j + 1, env5, i2)
+                    return self.ev(init, env2, i, after)
+                if ty == "val":
+                    if init is None:
+                        raise Refuse(f"{self.fn}: uninitialised `T {name}`")
+
+                    def after(t, ety, env4, i2):
+                        if ety != "val":
+                            raise Refuse(f"{self.fn}: `T {name}` initialised with a {ety}")
+                        env5 = dict(env4)
+                        env5[name] = ("val",)
+                        return [f"{i2}let v_{name} := {t}"] + go(j + 1, env5, i2)
+                    return self.ev(init, env2, i, after)
+                if ty == "ref":
+                    if init is None or init[0] != "arrow" or init[2] != "value" or init[1][0] != "id" or \
+                            env2.get(init[1][1], ("?",))[0] != "item":
+                        raise Refuse(f"{self.fn}: reference `{name}` not bound to `<item pointer variable>->value`")
+                    env3[name] = ("ref", init[1][1])
+                    return go(j + 1, env3, i)
+                raise Refuse(f"{self.fn}: declaration of `{name}` is outside the translated subset")
+            return go(0, env, ind)
+        if k == "if":
+            c = self.cond(s[1], env)
+            back = lambda env2, ind2: cont(self.restrict(env2, env), ind2)
+            return ([f"{ind}if {c} then"] + self.run([s[2]], dict(env), ind + "  ", back) +
+                    [f"{ind}else"] + self.run([s[3]], dict(env), ind + "  ", back))
+        if k == "expr":
+            if s[1][0] not in ("assign", "call"):
+                raise Refuse(f"{self.fn}: expression statement without effect")
+            return self.ev(s[1], env, ind, lambda t, ty, env2, i: cont(env2, i))
+        if k == "dowhile":
+            body, c = s[1], s[2]
+            items = [n for n, v in env.items() if v[0] == "item"]
+            if any(not env[n][1] for n in items):
+                raise Refuse(f"{self.fn}: an item pointer is unassigned at the loop entry")
+            if any(v[0] == "val" for v in env.values()):
+                raise Refuse(f"{self.fn}: value local alive across the loop")
+            self.nloop += 1
+            name = f"{self.lean_name}_loop{self.nloop}"
+            names = " ".join("v_" + n for n in items)
+            tup = ", ".join(["p"] + ["v_" + n for n in items])
+
+            def loop_tail(env2, ind2):
+                cc = self.cond(c, env2)
+                return [f"{ind2}if {cc} then {name} lt fuel p {names}", f"{ind2}else some ({tup})"]
+            self.in_loop += 1
+            inner = self.run([body], dict(env), "    ", lambda env2, ind2: loop_tail(self.restrict(env2, env), ind2))
+            self.in_loop -= 1
+            sig = " → ".join(["Nat", "GHeap α"] + ["Nat"] * len(items) + ["Option (" + " × ".join(["GHeap α"] + ["Nat"] * len(items)) + ")"])
+            self.loops.append([f"def {name} (lt : α → α → Bool) : {sig}",
+                               "  | 0, " + ", ".join(["_"] * (1 + len(items))) + " => none",
+                               f"  | fuel + 1, {tup} =>"] + inner + [""])
+            return ([f"{ind}match {name} lt {self.fuel_here()} p {names} with", f"{ind}| none => none", f"{ind}| some ({tup}) =>"] +
+                    cont(env, ind + "  "))
+        raise Refuse(f"{self.fn}: statement `{k}` is outside the translated subset")
+
+
+def generate_sort(repo, out_path):
+    """struct QuickSort of List::sort in include/nstd/List.hpp -> out_path; returns a summary; raises Refuse"""
+    src = strip_comments((Path(repo) / "include/nstd/List.hpp").read_text())
+    parts = ["/- generated by tools/gen_seq.py from include/nstd/List.hpp (List::sort, struct QuickSort) - do not edit -/",
+             "import Nstd.Seq.PtrSortG", "", "set_option linter.unusedVariables false", "",
+             "namespace Nstd.Generated.SeqSort", "open Nstd.Seq", "open Nstd.Seq.PtrG (GHeap)", "", "variable {α : Type}", ""]
+    summary = []
+    specs = [("QuickSort::swap", "swap", r"static\s+void\s+swap\s*\(\s*Item\s*\*\s*a\s*,\s*Item\s*\*\s*b\s*\)", ["a", "b"], False),
+             ("QuickSort::sort", "sort", r"static\s+void\s+sort\s*\(\s*Item\s*\*\s*left\s*,\s*Item\s*\*\s*right\s*\)", ["left", "right"], True)]
+    for fn, lean, rx, params, rec in specs:
+        body = extract(src, fn, rx)
+        pz = AP(atokenize(body), fn)
+        stmts = pz.stmts()
+        if pz.peek() is not None:
+            raise Refuse(f"{fn}: trailing tokens")
+        tr = TrS(fn, lean, rec)
+        env = {n: ("item", True) for n in params}
+        lines = tr.run(stmts, env, "    " if rec else "  ", lambda env2, ind2: [f"{ind2}some p"])
+        for l in tr.loops:
+            parts += l
+        ps = " ".join("v_" + n for n in params)
+        if rec:
+            parts += [f"def {lean} (lt : α → α → Bool) : Nat → GHeap α → Nat → Nat → Option (GHeap α)",
+                      "  | 0, _, _, _ => none", f"  | fuel + 1, p, {', '.join('v_' + n for n in params)} =>"] + lines + [""]
+        else:
+            parts += [f"def {lean} (p : GHeap α) ({ps} : Nat) : Option (GHeap α) :="] + lines + [""]
+        summary.append(f"{fn}:{len(stmts)} stmts/{len(tr.loops)} loop(s)")
+    # the public sort(): early return for 0 / 1 element, then QuickSort::sort(_begin.item, endItem.prev)
+    pub = re.sub(r"\s+", "", extract(src, "List::sort()", r"void\s+sort\s*\(\s*\)"))
+    if not (pub.startswith("if(endItem.prev==0||_begin.item==endItem.prev)return;structQuickSort{") and
+            pub.endswith("};QuickSort::sort(_begin.item,endItem.prev);")):
+        raise Refuse("List::sort(): not `if(endItem.prev == 0 || _begin.item == endItem.prev) return; struct QuickSort {…}; "
+                     "QuickSort::sort(_begin.item, endItem.prev);`")
+    parts += ["end Nstd.Generated.SeqSort", ""]
+    text = "\n".join(parts)
+    out_path = Path(out_path)
+    out_path.parent.mkdir(parents=True, exist_ok=True)
+    if not out_path.exists() or out_path.read_text() != text:
+        out_path.write_text(text)
+    return ", ".join(summary) + ", List::sort() wrapper shape checked"
+
+
 if __name__ == "__main__":
     repo = sys.argv[1] if len(sys.argv) > 1 else "/repo"
     gen_dir = Path(sys.argv[2]) if len(sys.argv) > 2 else Path(__file__).resolve().parents[1] / "lean/Nstd/Generated"
     try:
         print(generate(repo, gen_dir / "SeqLink.lean"))
         print(generate_array(repo, gen_dir / "SeqArr.lean"))
+        print(generate_sort(repo, gen_dir / "SeqSort.lean"))
     except Refuse as e:
         print("REFUSED:", e)
         sys.exit(1)
